@@ -49,8 +49,28 @@ Theorem C11_encoder_refuted :
 Proof. exact c11_encoder_refuted. Qed.
 Print Assumptions C11_encoder_refuted.
 
-(* not proved (checked by the oracle on the implementation only): "every frame after the
-   connect reply goes through the encoder" (rest_encoded) and "Close exactly once". *)
+(* "every later frame goes through the connection's encoder": queue mode, negotiated codec *)
+Theorem C11_rest_encoded : forall c ls s,
+  cc_rwq c = false -> cc_dict c = true -> crun c cinit ls = Some s -> rest_encoded (wlog s) = true.
+Proof. exact c11_rest_encoded. Qed.
+Print Assumptions C11_rest_encoded.
+(* (with ReplyWithoutQueue a reply written directly after CloseDictionaryCompression goes out
+   raw: the statement does not hold there, with or without the lock patch) *)
+Example C11_rest_encoded_rwq_counterexample :
+  option_map wlog (crun (mkCC true true false true) cinit
+     [AConnAdd; AConnReply; ADEnd; AKFlag; AKWriter; AKDict; ADirect; ADEnd])
+  = Some [WRaw IConn; WRaw IPush].
+Proof. vm_compute. reflexivity. Qed.
+
+(* "the encoder is closed exactly once": every configuration, every schedule -- never more
+   than one Close; exactly one once a codec was installed and close() has reached
+   CloseDictionaryCompression; none before *)
+Theorem C11_close_once : forall c ls s, crun c cinit ls = Some s ->
+  (count_close (elog s) <= 1)%nat /\
+  (cc_dict c = true -> pcC s <> CStart -> closing (kl s) = true -> count_close (elog s) = 1%nat) /\
+  (closing (kl s) = false -> count_close (elog s) = 0%nat).
+Proof. exact c11_close_once. Qed.
+Print Assumptions C11_close_once.
 
 Example C11_reachable :
   option_map (fun s => (wlog s, elog s))
